@@ -417,7 +417,10 @@ class Interp(object):
                 return ExcType(name)
             if name == 'error' and obj.dotted in ('socket', 'struct', 'zlib'):
                 return ExcType({'socket': 'OSError', 'struct': 'StructError', 'zlib': 'ZlibError'}[obj.dotted])
-            return ExtName(obj.dotted + '.' + name)
+            d = obj.dotted + '.' + name
+            if d in CONSTANTS:
+                return CONSTANTS[d]
+            return ExtName(d)
         if isinstance(obj, NodeV):
             if name == 'id' or name == 'address':
                 return NodeId(obj.idx)
@@ -1484,6 +1487,10 @@ class Interp(object):
         if soft:
             return None
         raise Undecided('method %s.%s not found' % (clsname, name))
+
+
+CONSTANTS = {'socket.errno.EAGAIN': 11, 'socket.errno.EWOULDBLOCK': 11, 'socket.errno.EINPROGRESS': 115,
+             'errno.EAGAIN': 11, 'errno.EWOULDBLOCK': 11, 'socket.SOL_SOCKET': 1, 'socket.SO_ERROR': 4}
 
 
 class ModVal(object):
